@@ -143,7 +143,10 @@ pub fn check(case: &AllocCase) -> Result<AllocVerdict, String> {
 pub fn generate(seed: u64) -> AllocCase {
     let mut rng = Rng::new(seed ^ 0xa110c);
     let n0 = *rng.pick(&[256u64, 384, 512, 768, 1024]);
-    let family = *rng.pick(&["list", "list", "rows", "dict", "vector", "bytes", "field", "dict-default", "two-lists"]);
+    let family = *rng.pick(&[
+        "list", "list", "rows", "dict", "vector", "bytes", "field", "dict-default", "two-lists", "wide-rows",
+        "dict-of-lists", "dict-of-sets",
+    ]);
     let mut setup: Vec<String> = Vec::new();
     let mut pool: Vec<&str> = Vec::new();
     let var = "x";
@@ -169,6 +172,33 @@ pub fn generate(seed: u64) -> AllocCase {
         "rows" => {
             setup.push("x := (0 til {N}) map (\\i -> [i, 0, 0, 0])".into());
             pool = vec!["x[{I}][1] = {I}", "x[{I}][2] += 1", "x[{I}] append= 5", "x[{I}][0] max= 3"];
+        }
+        "wide-rows" => {
+            // few rows of size ~2n: the row, not the outer list, is what a hidden copy would cost
+            setup.push("x := [[0] ** (2 * {N}), [1] ** (2 * {N})]".into());
+            pool = vec![
+                "pop x[0]",
+                "remove x[1][(0-1)]",
+                "x[0] append= {I}",
+                "x[1][{I}] = 2",
+                "x[0][{I}] += 1",
+                "x[1] ++= [{I}]",
+            ];
+        }
+        "dict-of-lists" => {
+            setup.push("x := {\"a\": [0] ** (2 * {N}), \"b\": [1] ** (2 * {N})}".into());
+            pool = vec![
+                "x[\"a\"] append= {I}",
+                "x[\"b\"][{I}] = 3",
+                "x[\"a\"][{I}] += 1",
+                "pop x[\"b\"]",
+                "x[\"a\"] ++= [{I}]",
+            ];
+        }
+        "dict-of-sets" => {
+            setup.push("x := {0: {}, 1: {}}".into());
+            setup.push("for (i <- 0 til {N}) x[0] |.= i".into());
+            pool = vec!["x[0] |.= ({I} + {N})", "x[1] |.= {I}", "x[0] -.= ({I} + 2 * {N})", "x[1] ||= {({I} + {N}): 1}"];
         }
         "dict" => {
             setup.push("x := {}".into());
@@ -248,6 +278,9 @@ fn restore_expr(family: &str) -> &'static str {
     match family {
         "list" | "two-lists" => "[0] ** (2 * {N})",
         "rows" => "(0 til {N}) map (\\i -> [i, 0, 0, 0])",
+        "wide-rows" => "[[0] ** (2 * {N}), [1] ** (2 * {N})]",
+        "dict-of-lists" => "{\"a\": [0] ** (2 * {N}), \"b\": [1] ** (2 * {N})}",
+        "dict-of-sets" => "{0: (for (i <- 0 til {N}) yield i: null), 1: {}}",
         "dict" => "(for (i <- 0 til {N}) yield i: i)",
         "dict-default" => "({:0} || (for (i <- 0 til {N}) yield i: i))",
         "vector" => "vector([0] ** (2 * {N}))",
